@@ -66,6 +66,18 @@ def gen_scenario(rng, k):
     lexs = [base]
     if rng.random() < 0.4:
         lexs.append(g.lexicon('b', rng.choice(['1', '2.0+x']), v, requires=[{'id': 'a', 'version': '1'}] if rng.random() < 0.5 else None))
+    if v == '1.3' and rng.random() < 0.6:
+        # xml:space="preserve" keeps the text as written; every other text node is whitespace-normalised,
+        # wherever it stands relative to a preserved one
+        for lx in lexs:
+            for y in lx.get('synsets', []):
+                for t in y.get('definitions', []) + y.get('examples', []) + ([y['ili_definition']] if y.get('ili_definition') else []):
+                    r = rng.random()
+                    if r < 0.3:
+                        t['_preserve'] = True
+                        t['text'] = rng.choice(['  kept   as  written ', 'line one\n    line two', ' x'])
+                    elif r < 0.7:
+                        t['_pad'] = True
     ops = [{'k': 'add', 'res': docs.resource(lexs, v)}]
     if rng.random() < 0.6:
         # extensions live in their own file: _precheck decides skipping against the database
